@@ -370,6 +370,17 @@ HFORMS = ["dict", "iter-lower", "iter-upper", "items-upper", "rec1-upper", "rec-
           "znaxis-only", "znaxis-wins", "angle-keys", "angle-kwargs", "latpole0", "ctype-lower-padded-nocunit", "int-crpix-crval"]
 
 
+def f4_header_enabled():
+    """header values as numpy float32 scalars / f4 record fields: generated once the repair fixes/C10/0006 is recorded
+    (its witness corpus/C10/fixed-float32-header.json exists); until then the family is pending, see the report"""
+    return os.path.exists(os.path.join(core.VERIF, "corpus", "C10", "fixed-float32-header.json"))
+
+
+def f4_round(h):
+    import numpy as np
+    return {k: (float(np.float32(v)) if isinstance(v, float) else v) for k, v in h.items()}
+
+
 def build(h, hform):
     """the WCS object of base header h (lower-case dict of python floats / ints / str) given in form hform; every
     form denotes the same header values"""
@@ -392,6 +403,14 @@ def build(h, hform):
         return W(_record(h).view(np.recarray))
     if hform == "np64-values":
         return W({k: (np.float64(v) if isinstance(v, float) else v) for k, v in h.items()})
+    if hform == "f4-values":            # the same values held as numpy float32 scalars
+        return W({k: (np.float32(v) if isinstance(v, float) else v) for k, v in h.items()})
+    if hform == "rec1-f4":              # ... or in float32 fields of a record array
+        dt = [(k, "U24" if isinstance(v, str) else ("i8" if isinstance(v, int) else "f4")) for k, v in h.items()]
+        a = np.zeros(1, dtype=dt)
+        for k, v in h.items():
+            a[k] = v
+        return W(a)
     if hform == "znaxis-only":
         d = {k: v for k, v in h.items() if not k.startswith("naxis")}
         d.update(znaxis1=h["naxis1"], znaxis2=h["naxis2"])
@@ -473,7 +492,7 @@ class Forms(Base):
         out = []
         kinds = ["tan", "tpv", "sip", "tpv-sparse", "sip-noinv", "tan-pv"]
         # header forms x operations
-        hf = list(HFORMS[1:])
+        hf = list(HFORMS[1:]) + (["f4-values", "rec1-f4"] if f4_header_enabled() else [])
         r.shuffle(hf)
         for i, hform in enumerate(hf if round == 0 else hf[:4]):
             for rep in range(ctx.n(1, 6)):
@@ -483,6 +502,8 @@ class Forms(Base):
                     for k in ("crpix1", "crpix2", "crval1"):
                         h[k] = float(math.floor(h[k] + 0.5))
                     h["crval2"] = float(max(-89, min(89, math.floor(h["crval2"] + 0.5))))
+                if hform in ("f4-values", "rec1-f4"):
+                    h = f4_round(h)
                 op = r.choice(["i2s", "i2s", "s2i", "jac"])
                 out.append({"header": h, "hform": hform, "pform": "f8-arr", "op": op, "pts": g.gen_points(r, h, 4, special=False),
                             "distort": True, "find": r.random() < 0.5, "family": "%s/hform-%s/%s" % (kind, hform, op)})
